@@ -55,9 +55,11 @@ PROBES = ['unedited_accepted', 'edit_rejected', 'cert_request',
 
 KEYS = ['user_ed25519', 'user_rsa', 'user_ecdsa256', 'user_ecdsa384']
 EDITS = ['none', 'none', 'sig_byte', 'sig_alg', 'signed_user', 'signed_sid',
-         'other_key', 'key_byte', 'trailing', 'sig_extend', 'sig_blob_extra']
+         'other_key', 'key_byte', 'trailing', 'sig_extend', 'sig_blob_extra',
+         'sig_empty', 'sig_inner_empty', 'sig_half']
 CERT_EDITS = ['none', 'none', 'cert_byte', 'sig_byte', 'signed_sid',
-              'sig_extend', 'sig_blob_extra']
+              'sig_extend', 'sig_blob_extra', 'sig_empty', 'sig_inner_empty',
+              'sig_half']
 
 
 def gen_plan(rng):
@@ -238,6 +240,12 @@ def run_plan(plan, sched_seed=None, sched_replay=None):
                 sig = string(a) + string(s + b'\x00')
             else:
                 sig = string(a) + string(s) + b'\x00'
+        elif edit == 'sig_empty':
+            sig = b''
+        elif edit == 'sig_inner_empty':
+            sig = string(Reader(sig).string()) + string(b'')
+        elif edit == 'sig_half':
+            sig = sig[:len(sig) // 2]
         elif edit == 'sig_alg':
             sr = Reader(sig)
             a = sr.string()
